@@ -2,7 +2,7 @@
 import itertools, json, os
 from . import common, poolsfam
 
-CLASSES = ["hv-recycle", "os-badnum", "os-branches", "sv-recycle-branches", "sv-recycle-typecheck", "sv-recycle-swagger", "sv-recycle-itemscheck", "os-skipschemata", "os-composite", "os-format", "os-invalid", "os-nil", "os-valid", "pv-recycle", "pv-recycle-invalid",
+CLASSES = ["os-nilschema", "hv-recycle", "os-badnum", "os-branches", "sv-recycle-branches", "sv-recycle-typecheck", "sv-recycle-swagger", "sv-recycle-itemscheck", "os-skipschemata", "os-composite", "os-format", "os-invalid", "os-nil", "os-valid", "pv-recycle", "pv-recycle-invalid",
            "sv-recycle-badnum", "sv-recycle-invalid", "sv-recycle-nil", "sv-recycle-valid"]
 
 
